@@ -136,6 +136,13 @@ def build_dep(info):
             kw[k] = copy.deepcopy(info[k])
     if info.get("all_files"):
         kw["all_files"] = True
-    if info.get("head") is not None:
+    if info.get("head_form"):
+        # head given as objects: one Tag passed directly, a list of children, or a TagList
+        from htmltools import TagList
+        from ..spec import build
+        nodes = [build(c) for c in info["head_spec"]]
+        form = info["head_form"]
+        kw["head"] = nodes[0] if form == "tag" else (TagList(*nodes) if form == "taglist" else nodes)
+    elif info.get("head") is not None:
         kw["head"] = info["head"]
     return HTMLDependency(info["name"], info["version"], **kw)
